@@ -41,10 +41,18 @@ RULE = ("cases = scenario templates over a catalogue of 44 class specifications 
         "OrderedDict / custom Mapping; validators/converters/hooks: list / tuple / prebuilt and_ / pipe object; these and "
         "make_class attrs: dict / OrderedDict, names list / tuple; class_body dict / OrderedDict) and the user's edits of "
         "the kept objects (new key + every old value changed, appends) sit between definitions; "
+        "(0d) ENVIRONMENT: changes of the process environment (attrs.validators.set_disabled on/off) are steps of a "
+        "history: a dedicated template (class defined while validators are off, used after) and every fifth scenario of "
+        "any template gets switch operations inserted; the erased universe keeps the switch in its default state; "
+        "every fingerprint is taken with validators enabled and its assignment/construction probes again with "
+        "validators disabled; "
         "(5) shared counting attrs (also re-declared base fields) with @ca.validator/@ca.default between definitions; (6) fields over shared "
         "argument containers with appends between definitions; (7) random mixtures with histories up to 6 steps. "
         "non-trivial = the history contains at least one definition that succeeded; distinct = distinct JSON case")
 ASSUMPTIONS = [
+    "process environment: attr._config has one flag (_run_validators); it is the only environment dimension varied -- "
+    "interpreter flags (-O, sys.flags) cannot be changed in-process and sys.modules/linecache belong to C17; T1 names every "
+    "function of _make.py/_next_gen.py that reads `_config.<attr>` as code (not as text of a generated method)",
     "every user callable handed to attrs is a fresh object tagged with its owner (the class whose body created it, a base, "
     "or the shared arguments); a class that holds (fields(), globals/defaults/closures of its generated methods) or runs "
     "(hash/repr/eq/ne/lt../getstate/assignment/construction probes, on values two twins' keys classify differently) a "
@@ -68,7 +76,8 @@ ASSUMPTIONS = [
 ]
 EXHAUSTIVE = {"quick": False, "thorough": False}
 BUDGET_S = {"quick": 30, "thorough": 400}
-TABLES = ["attrsKw", "defineKw", "frozenPartialKw", "attrsWrapRebinds", "defineWrapRebinds", "makeClassDictAliased"]
+TABLES = ["attrsKw", "defineKw", "frozenPartialKw", "attrsWrapRebinds", "defineWrapRebinds", "makeClassDictAliased",
+          "configReaders"]
 PARALLEL = True
 
 LEVEL_TEXT = (
@@ -82,6 +91,8 @@ LEVEL_TEXT = (
     "(result of the target = result with every definition erased / as if first), C16_world_is_declared + "
     "C16_outcome_is_pure_function (the world a definition meets, and so its outcome, is an explicit function of arguments, "
     "class and counted user operations), C16_results_pointwise (every result of a history, order irrelevant), "
+    "C16_environment_erasable (switch operations anywhere in a history can be erased together with the definitions) with "
+    "C16_definitions_never_read_config (T1: every reader of _config is a known run-time function), "
     "C16_make_class_pure, C16_outcome_function_of_inputs, C16_decorators_independent and C16_leak_frame (for ANY leak "
     "parameter only the licensed cells can change), C16_source_has_no_rebinding (the extracted tables license nothing). "
     "About the ORIGINAL behaviour (allLeak; explicitly not the model of the code): C16_leaky_hash_needs_trigger, "
@@ -719,10 +730,46 @@ def _fix_catalogue_for_case(case):
     return case
 
 
-def gen_cases(tier, rng):
+ENV_TARGETS = ["valOnly", "convVal", "plainBase", "mutableBaseAttrS", "fieldHookValidate", "frozenBase", "hookedBase",
+               "mixedUnann", "ownSetattr", "annOnly", "usesLists", "kwOnlyField"]
+
+
+def with_env(case, rng):
+    """put changes of the process environment (the global validator switch) into a history"""
+    c = copy.deepcopy(case)
+    steps = c["steps"]
+    i = rng.randrange(len(steps) + 1)
+    steps.insert(i, "validatorsOff")
+    r = rng.random()
+    if r < 0.35:
+        steps.insert(rng.randrange(i + 1, len(steps) + 1), "validatorsOn")
+    elif r < 0.45:
+        steps.insert(rng.randrange(i + 1, len(steps) + 1), "validatorsOff")
+    c["tpl"] = str(c.get("tpl")) + "+env"
+    return c
+
+
+def t_env(rng):
+    """a class defined while validators are switched off (and used after they are switched on again)"""
+    d = _rand_deco(rng) if rng.random() < 0.7 else copy.deepcopy(rng.choice(TWIN_DECOS))
+    steps = ["validatorsOff"]
+    if rng.random() < 0.4:
+        steps.append(defDeco(0, _cat(rng.choice(CAT), "A", rng)))
+    if rng.random() < 0.3:
+        steps.append("validatorsOn" if rng.random() < 0.5 else rng.choice(USER_OPS))
+        if rng.random() < 0.5:
+            steps.append("validatorsOff")
+    tgt = rng.choice(ENV_TARGETS) if rng.random() < 0.7 else rng.choice(CAT)
+    return scenario([d], steps, defDeco(0, _cat(tgt, "B", rng)), cas=[CA(nValid=1)], tpl="env")
+
+
+TEMPLATES.insert(6, t_env)
+
+
+def _gen_cases(tier, rng):
     # 0. layout twins first (library-global state keyed by field layout needs no shared decorator or container)
     for i in range(1000 if tier == "quick" else 40000):
-        yield (t_twin, t_siblings, t_pool, t_lists)[i % 4](rng)
+        yield (t_twin, t_siblings, t_pool, t_lists, t_env)[i % 5](rng)
     # 1. every (decorator, A) of the catalogue through one shared decorator object, B from the sensitive set
     if tier == "quick":
         order = [(d, a) for d in DECO_NAMES for a in CAT]
@@ -741,16 +788,25 @@ def gen_cases(tier, rng):
         yield TEMPLATES[i % len(TEMPLATES)](rng)
 
 
+def gen_cases(tier, rng):
+    """every fifth scenario additionally gets changes of the process environment somewhere in its history"""
+    for i, c in enumerate(_gen_cases(tier, rng)):
+        yield with_env(c, rng) if i % 5 == 4 else c
+
+
 # ------------------------------------------------------------------ observation
 _N = [0]
 
 
 def observe(case):
+    import attr
     _N[0] += 1
     common.purge_linecache()
+    attr.validators.set_disabled(False)
     try:
         return _observe(case)
     finally:
+        attr.validators.set_disabled(False)      # the process environment is always handed back in its default state
         del W.LOG[:]
 
 
@@ -766,6 +822,8 @@ def _run(world, steps, target, erase):
             hist.append(r)
             if cls is not None:
                 made.append((cls, W.deep_of(cls, world.allowed_of(cls))))
+        elif st in W.ENV_OPS and erase:
+            continue            # the erased universe keeps the process environment in its default state
         else:
             hist.append(world.user_op(st))
     s0 = world.snapshot()
@@ -780,8 +838,12 @@ def _observe(case):
     # this case's history cannot reach it
     wb = W.World(case, "b", fp_bases=False)
     alone, deep_b, _, _, _ = _run(wb, case["steps"], case["target"], erase=True)
+    import attr
+    attr.validators.set_disabled(False)
     wa = W.World(case, "a")
     after, deep_a, hist, made, snaps_ok = _run(wa, case["steps"], case["target"], erase=False)
+    run_after = not attr.validators.get_disabled()      # only the history's own switch operations moved it
+    attr.validators.set_disabled(False)
     again = [(W.deep_of(c, wa.allowed_of(c)), d) for c, d in made]
     def _b(k):
         return wa.roots[k[5:]] if k.startswith("root:") else wa.bases[k]
@@ -799,6 +861,7 @@ def _observe(case):
         "sizesAfter": wa.sizes(),
         "deepSame": W.normalised(wa, deep_a) == W.normalised(wb, deep_b), "earlierSame": bool(earlier), "containersSame": bool(snaps_ok),
         "cellsSame": wa.cells_same(), "foreignFree": bool(foreign_free),
+        "runAfter": bool(run_after),
     }
 
 
